@@ -253,7 +253,10 @@ def s_case(draw, max_len=6, worm='maybe', locking=None, histories=('run', 'run+c
     if h == 'run':
         case['history'] = [run1]
     elif h == 'run+continue':
-        case['history'] = [run1, s_run(draw, mdl, max_steps=max(3, max_steps // 2), nonmultiple=nonmultiple)]
+        run2 = s_run(draw, mdl, max_steps=max(3, max_steps // 2), nonmultiple=nonmultiple)
+        if draw(st.integers(0, 3)) == 0:
+            run2['new_solver'] = True            # e.g. a helper that does Solver(powertrain).run(...) to continue
+        case['history'] = [run1, run2]
     else:
         reset = {'op': 'reset', 'reinit': True}
         if draw(st.booleans()):
